@@ -32,9 +32,11 @@ pub enum Defect {
     TruncatedStatement,
     DataListStray,
     LabelAsOperand,
+    LoneDot,
+    UnterminatedMacro,
 }
 
-pub const DEFECTS: [Defect; 19] = [
+pub const DEFECTS: [Defect; 21] = [
     Defect::WrongOperandType,
     Defect::MissingLastOperand,
     Defect::ExtraOperand,
@@ -54,6 +56,8 @@ pub const DEFECTS: [Defect; 19] = [
     Defect::TruncatedStatement,
     Defect::DataListStray,
     Defect::LabelAsOperand,
+    Defect::LoneDot,
+    Defect::UnterminatedMacro,
 ];
 
 impl Defect {
@@ -78,12 +82,14 @@ impl Defect {
             Defect::TruncatedStatement => "statement-cut-after-a-token",
             Defect::DataListStray => "stray-token-in-a-data-list",
             Defect::LabelAsOperand => "label-definition-as-operand",
+            Defect::LoneDot => "dot-that-starts-no-directive",
+            Defect::UnterminatedMacro => "macro-that-is-never-closed",
         }
     }
     /// Does the malformed line certainly contain something that is no token of the language (so that
     /// silence about it means that text was dropped)?
     pub fn must_error(self) -> bool {
-        matches!(self, Defect::StrayAt | Defect::StrayDollar | Defect::NonAscii | Defect::UnterminatedString | Defect::UnterminatedChar | Defect::DataListStray)
+        matches!(self, Defect::StrayAt | Defect::StrayDollar | Defect::NonAscii | Defect::UnterminatedString | Defect::UnterminatedChar | Defect::DataListStray | Defect::LoneDot | Defect::UnterminatedMacro)
     }
     /// The malformed replacement for an instruction line `orig` (already trimmed of comments).
     pub fn apply(self, orig: &str, rng: &mut Rng) -> String {
@@ -141,6 +147,8 @@ impl Defect {
                 format!("{indent}{t}")
             }
             Defect::LabelAsOperand => format!("{indent}addi t0, t1, oops:"),
+            Defect::LoneDot => format!("{indent}{}", rng.pick(&[".", ". . .", "addi t0, t0, .", ". addi t0, t0, 1", ".. ..", ".word 1, . , 2"])),
+            Defect::UnterminatedMacro => format!("{indent}{}", rng.pick(&[".macro", ".macro swap", ".macro swap (%a, %b)"])),
             Defect::DataListStray => {
                 let dir = *rng.pick(&[".word", ".byte", ".half"]);
                 let tail = *rng.pick(&["@", "$", "\u{e9}", "\"open", "'a", "1 @ 2", "@ 3", "% 4"]);
